@@ -431,6 +431,10 @@ def leaf_context_case(ctx, case):
         env.Clock.now = t
         leaf_code = op('CALL') + b'\x05'
         pre, kw = [op('DEF') + b'\x05' + (1).to_bytes(2, 'big') + op('TRUE')], {}
+    elif what == 'contract registered globally':
+        env.Clock.now = t
+        leaf_code = P(b'\x07') + P(b'\x01') + P(CID) + op('INVOKE') + op('TRUE')
+        pre, kw = [], {}
     else:   # contract supplied by the embedder
         env.Clock.now = t
         leaf_code = P(b'\x07') + P(b'\x01') + P(CID) + op('INVOKE') + op('TRUE')
@@ -448,9 +452,26 @@ def leaf_context_case(ctx, case):
             return st.list()
         except BaseException as e:
             return type(e).__name__
-    alone = run(pre + [leaf_code])
-    in_tree = run(pre + [leaf.unlocking_script().bytes, node.locking_script().bytes])
-    ctx.ran(2)
+    if what == 'contract registered globally':
+        F.add_contract(CID, rec)
+    try:
+        alone = run(pre + [leaf_code])
+        in_tree = run(pre + [leaf.unlocking_script().bytes, node.locking_script().bytes])
+        # ... and as the last script of an authorization, where a tree's locking script normally sits
+        auth_alone = auth_tree = True
+        if 'additional_flags' not in kw:         # (run_auth_scripts has no flags parameter)
+            try:
+                auth_alone = F.run_auth_scripts(pre + [leaf_code], dict(cache), **kw)
+                auth_tree = F.run_auth_scripts(pre + [leaf.unlocking_script().bytes, node.locking_script().bytes], dict(cache), **kw)
+            except BaseException as e:
+                auth_alone, auth_tree = 'raised', repr(e)
+    finally:
+        if what == 'contract registered globally':
+            F.remove_contract(CID)
+    if auth_alone is not True or auth_tree is not True:
+        ctx.violation({'clause': 'the verdict is the leaf script\'s own verdict', 'leaf': 'depends on ' + what.split(' ')[0], 'through': 'run_auth_scripts'},
+                      f'{what}, depth {depth}: run_auth_scripts alone {auth_alone!r}, through the tree {auth_tree!r}')
+    ctx.ran(4)
     ctx.trans(depth + 1)
     ctx.state(('leaf-context', what, depth))
     ctx.outcome('ctx:%s' % (alone,))
@@ -601,6 +622,37 @@ def limit_case(ctx, case):
     ctx.evaluations += max(cnt - 1, 0)
 
 
+def big_pack_case(ctx, case):
+    """serialisation of trees whose children serialise to more than 2^15 bytes (the child lengths are unsigned 16-bit fields)"""
+    name, sizes, shape = case
+    leaves = {}
+
+    def build(sh):
+        if isinstance(sh, int):
+            lf = T.ScriptLeaf.from_code(sized_leaf(sh, sizes[sh]))
+            leaves[sh] = lf
+            return lf
+        return T.ScriptNode(build(sh[0]), build(sh[1]))
+    tree = build(shape)
+    ctx.state(('bigpack', name))
+    try:
+        packed = tree.pack()
+    except BaseException as e:
+        ctx.unspec('pack refuses: %s' % type(e).__name__)      # more than the format can hold: refusing is fine
+        return
+    try:
+        t2 = T.ScriptNode.unpack(packed)
+        ok = t2.root() == tree.root() and [l.unlocking_script().bytes for l in walk_leaves(t2)] == [l.unlocking_script().bytes for l in walk_leaves(tree)]
+    except BaseException as e:
+        ok = repr(e)
+    ctx.ran()
+    ctx.trans()
+    ctx.outcome('bigpack:%s' % (ok is True))
+    if ok is not True:
+        ctx.violation({'clause': 'pack/unpack preserves root and unlocking scripts', 'tree': 'children above 2^15 bytes'},
+                      f'{name} (packed {len(packed)} bytes): {ok}')
+
+
 def builder_case(ctx, n):
     cnt = 0
     srcs = lambda: [T.Script.from_bytes(leaf_script(i)) for i in range(n)]
@@ -708,7 +760,7 @@ def blocks(tier, seed):
               'all binary tree shapes with 2..%d leaves (%d shapes), every leaf; every proof corruption for shapes <= %d leaves'
               % (nmax, len(cases), cmax), nshards=min(len(cases), 128)),
         Block('leaf_in_embedder_context', [(w, d) for w in ('ts_threshold 0', 'ts_threshold 500', 'epoch_threshold 3600',
-                                                            'function defined by the witness', 'contract of the embedder') for d in (1, 2, 4)],
+                                                            'function defined by the witness', 'contract of the embedder', 'contract registered globally') for d in (1, 2, 4)],
               leaf_context_case, 'leaf depending on run flags / an earlier script\'s function / an embedder contract x depth 1, 2, 4', nshards=15),
         Block('deep_loop_leaf', [(it, d) for it in (1, 100, 120, 124, 125, 126, 127) for d in range(0, 9)], deep_loop_case,
               'leaf looping {1,100,120,124..127} times x depth 0..8 of a comb tree', nshards=32),
@@ -719,6 +771,13 @@ def blocks(tier, seed):
               'every shape with 2..%d leaves x every sub-position reused x {left, right, reused twice, prioritized(tree=)}' % (5 if q else 6), nshards=32),
         Block('call_stack_limit_near_leaf_depth', [(n, idx) for n in range(2, (6 if q else 7) + 1) for idx in range(catalan(n - 1))], limit_case,
               'every shape with 2..%d leaves x every leaf x call-stack limit 0..depth+2, and x stack_max_items 1..2*depth+6 x 0..2 extra witness items, against the reference interpreter' % (6 if q else 7), nshards=32),
+        Block('serialisation_of_large_children', [
+            ('right leaf 32767', {0: 200, 1: 32767 - 3}, (0, 1)), ('right leaf 32768', {0: 200, 1: 32768}, (0, 1)), ('right leaf 40000', {0: 200, 1: 40000}, (0, 1)),
+            ('left leaf 40000', {0: 40000, 1: 200}, (0, 1)), ('both 33000', {0: 33000, 1: 33000}, (0, 1)), ('right leaf 65000', {0: 200, 1: 65000}, (0, 1)),
+            ('right-leaning 8 x 5000', {i: 5000 for i in range(8)}, (0, (1, (2, (3, (4, (5, (6, 7)))))))),
+            ('left-leaning 8 x 5000', {i: 5000 for i in range(8)}, (((((((0, 1), 2), 3), 4), 5), 6), 7)),
+            ('balanced 4 x 12000', {i: 12000 for i in range(4)}, ((0, 1), (2, 3))), ('right subtree 2 x 20000', {0: 100, 1: 20000, 2: 20000}, (0, (1, 2)))],
+            big_pack_case, 'pack / unpack of trees whose left / right child serialises to 2^15 - 1 .. 65000 bytes', nshards=10),
         Block('builders', list(range(1, bmax + 1)), builder_case,
               'prioritized / balanced tree and merklized-script builders for every leaf count 1..%d, every leaf incl. fillers' % bmax,
               nshards=bmax),
